@@ -55,9 +55,26 @@ def make_ranges(rng):
             d = {'L_x': s[0], 'L_y': s[1]}
             if three:
                 d['L_z'] = s[2]
+            # keyword forms a user may write: keys in any order, trailing sizes left to their defaults
+            r = rng.random()
+            if r < 0.25:
+                ks = list(d)
+                rng.shuffle(ks)
+                d = {k: d[k] for k in ks}
+            elif r < 0.45:
+                del d[rng.choice(['L_y', 'L_z'] if three else ['L_y'])]
             cparams.append(d)
         else:
             cparams.append(list(s))
+    # a size left to its default may coincide with another requested lattice: keep one request per distinct lattice
+    import panqec.codes as pc
+    seen_sizes, uniq = set(), []
+    for c in cparams:
+        k_ = tuple((getattr(pc, cname)(**c) if isinstance(c, dict) else getattr(pc, cname)(*c)).size)
+        if k_ not in seen_sizes:
+            seen_sizes.add(k_)
+            uniq.append(c)
+    cparams = uniq
     from panqec.codes import __dict__ as _c  # noqa
     import panqec.codes as pc
     dnames = getattr(pc, cname).deformation_names
